@@ -32,6 +32,26 @@ claim("C02",
       "Structural decision of C02's ordering clause: in Parameter.__set__ no observable effect (value store, link install/drop, async-task cancel, dependency rebinding, watcher dispatch; directly or through a callee summary) can precede a point where the setter may still reject (explicit raise, _validate, set_hook); __set__ overrides act only after super().__set__; update checks the key before its setattr.",
       "Does not decide that callees are effect-free before their own raises, nor equality of the complete observable state (needs execution). Effects are recognised by the access-path/callee tables of engine/effects.py.",
       "static analysis: effect recognisers + transitive callee effect summaries, CFG reachability from effect nodes to rejection points")
+claim("C08",
+      "Structural decision of two clauses of C08: refs and ref_watchers are co-updated by every writer (every removal/replacement of a refs entry is paired with a rebuild of the source watchers; a rebuild first unwatches and resets) and every link-dependency/value computation in class Parameters honours <parameter>.nested_refs; the sync's own writes run inside the syncing scope.",
+      "Does not decide that the parameter mirrors the reference after arbitrary source histories (needs execution).",
+      "static analysis: parallel-store pairing via dominance/post-dominance on the CFG, callee summaries, def-use of the `recursive` argument, lexical scope check")
+claim("C09",
+      "Decides only the clause 'every operator form Python can dispatch to the expression, including all reflected operators, is supported': the operator table of class rx is complete for the data model's binary operators (forward + reflected), every referenced operator/math function exists, reflected forms apply the forward function with reverse=True, each special method maps to the stdlib function the data model assigns to it, and _eval_operation swaps operands iff reverse.",
+      "Cache coherence of .rx.value under read/update histories, the .rx helper namespace and rx.watch delivery are NOT decided (not statically decidable here). The stdlib attribute sets of `operator`/`math` are read from the interpreter running the check.",
+      "static analysis: table-agreement check of sibling special methods against the language-reference operator table")
+claim("C10",
+      "Structural decision of four obligations from which latest-wins follows for every completion order: no suspension point inside a `with _syncing(...)` body (R10.a); every cancel of an async_refs entry deregisters or re-registers before the next suspension (R10.b); in _async_ref every path to a suspension point owns async_refs[pname] (R10.d); in reactive.py writes of the cached value after a suspension are guarded by `self._current_task is task` with the task registered before the first suspension (R10.c).",
+      "Trusted: asyncio's cancellation semantics (Task.cancel() raises at the await). The final value under each schedule is not executed; each violated obligation yields a concrete bad schedule.",
+      "static analysis: suspension-point tagging on the CFG, reachability between cancel/registration/suspension nodes, must-conditions from dominating branches")
+claim("C13",
+      "Structural decision of C13: every installation of a Parameter into a class namespace (3 type.__setattr__ sites) is followed on every path, incl. exceptional ones and before anything that may raise, by an invalidation of the `.param` cache of the class and all its subclasses; the cache has a single reader; every namespace consumer goes through it.",
+      "Identity/equality of .param[name] with the governing descriptor after arbitrary histories follows from these obligations but is not executed.",
+      "static analysis: must-pass-through (post-dominance incl. exceptional edges) from each write to an invalidation with an all-subclasses summary; who-may-read table")
+claim("C18",
+      "Structural decision of C18 per mutator: write-through pairing of the proxy list and _objects with identical arguments in every listed mutator; pop returns the removed object on every path; prune-polarity agreement between pop and remove; every store mutation inside exactly one notification scope with trigger=False on delegated calls; readers (get_range, membership, objects getter/setter) use the current stores.",
+      "Consistency after arbitrary mutation sequences follows from the per-mutator obligations but is not executed; list mutators that ListProxy does not override are reported as informational.",
+      "static analysis: sibling/parallel-store cross-check per basic block, return discipline on the CFG, lexical scope rules")
 
 
 def main():
